@@ -94,6 +94,7 @@ inductive Out
   | reply (id : Nat) (fin : Bool)
   | data (id len : Nat) (fin : Bool)
   | read (id n : Nat)     -- not a frame: the handler of stream `id` got n bytes from its request body
+  | rend (id kind : Nat)  -- not a frame: a read command of the handler ended: 0 all bytes, 1 io.EOF, 2 stream error
   deriving Repr, DecidableEq
 
 inductive Status | run | closed | stop | panic
@@ -269,7 +270,9 @@ def microH (s : State) (st : St) (h : H) : Option (State × List Out) :=
     match h.queue with
     | [] => none
     | .read n :: _ =>
-      if n = 0 ∨ !st.hasBody ∨ !st.alive then some (popCmd s h.id, [])
+      if n = 0 ∨ !st.hasBody ∨ !st.alive then
+        -- nothing asked / no body (io.EOF at once) / stream closed (its error, the buffer is gone)
+        some (popCmd s h.id, [.rend h.id (if n = 0 then 0 else if !st.hasBody then 1 else 2)])
       else if st.buf > 0 then
         let k := min n st.buf
         -- noteBodyRead: connection WINDOW_UPDATE always, stream one unless half closed (remote)
@@ -279,8 +282,9 @@ def microH (s : State) (st : St) (h : H) : Option (State × List Out) :=
             { x with buf := x.buf - k, inflow := if x.isOpen then (flowAdd x.inflow k).getD x.inflow else x.inflow }
           else x
         let s3 := if n - k = 0 then popCmd s2 h.id else setHead s2 h.id (.read (n - k))
-        some (s3, [.read h.id k, .wu 0 k] ++ (if st.isOpen then [.wu h.id k] else []))
-      else if st.eof then some (popCmd s h.id, [])
+        some (s3, [.read h.id k, .wu 0 k] ++ (if st.isOpen then [.wu h.id k] else []) ++
+                  (if n - k = 0 then [.rend h.id 0] else []))
+      else if st.eof then some (popCmd s h.id, [.rend h.id 1])
       else none
     | .write n :: _ =>
       if h.werr then some (popCmd s h.id, [])
